@@ -12,6 +12,7 @@ def run(ck):
     ck.out_of_scope += ['SOCKS5 UDP associate, QUIC datagrams, session tables of the HTTP/QUIC hops (socket-driven loops across tasks); the frame reader of the inline stream hop IS included', 'reply path and labelling of replies',
                         'payloads larger than one QUIC packet (C11 decides fragmentation)', 'tproxy UDP accept (recvmsg ancillary data)']
     udp.spec_reverse_udp_accept(ck)
+    udp.spec_reverse_session_end(ck)
     # datagrams carried inline over a stream hop (HTTP / QUIC): each frame comes out once, whole, whatever the segmentation
     ck.plans.append(codec.replay_plan)
     codec.spec_stream_frame_reader(ck, nreads=3 if ck.tier == 'quick' else 5)
